@@ -116,8 +116,9 @@ def drive_a(rec, cases):
                 pad = rng.choice([0, 1, 3, n])
                 off = rng.choice([0, 8, 16, 24])
                 rs = range_for(asz, rng) if variant == "range" else None
-                rec.progress("%s[%s] N=%d k=%d a_size=%d res_size=%d alias=%s range=%s" % (
-                    variant, mk, n, k, asz, rsz, alias, rs))
+                if not rec.progress("%s[%s] N=%d k=%d a_size=%d res_size=%d alias=%s range=%s" % (
+                        variant, mk, n, k, asz, rsz, alias, rs)):
+                    continue
                 got, why = norm_call(L, mods[mk], variant, n, k, A, rsz, alias, pad, off, fill, rng, rs)
                 rec.case(("A", variant, mk, k, asz, rsz, alias), nontrivial=asz > 0 and rsz > 0)
                 if got is None or not np.array_equal(got, exp):
@@ -176,8 +177,9 @@ def drive_b(rec, ks, quick):
             variant, mk = eps[(k + rep) % len(eps)]
             alias = rng.random() < 0.3 and variant != "range"
             rs = range_for(asz, rng) if variant == "range" else None
-            rec.progress("%s[%s] N=%d k=%d a_size=%d res_size=%d alias=%s range=%s (62-bit data)" % (
-                variant, mk, n, k, asz, rsz, alias, rs))
+            if not rec.progress("%s[%s] N=%d k=%d a_size=%d res_size=%d alias=%s range=%s (62-bit data)" % (
+                    variant, mk, n, k, asz, rsz, alias, rs)):
+                continue
             got, why = norm_call(L, mods[mk], variant, n, k, A, rsz, alias, rng.choice([0, 2, n]),
                                  rng.choice([0, 8, 16, 24]), rng.choice([0xFF, 0x00, 0x7F]), rng, rs)
             rec.case(("B", variant, mk, k, asz, rsz, alias), nontrivial=rsz > 0)
@@ -207,7 +209,8 @@ def drive_b(rec, ks, quick):
             xb, cb, ob, co = Buf(8 * m), Buf(8 * m), Buf(8 * m, fill=0xEE), Buf(8 * m, fill=0xEE)
             xb.i64[:] = x
             cb.i64[:] = cin
-            rec.progress("znx_normalize k=%d shape out=%d cin=%d cout=%d" % (k, has_out, has_cin, has_cout))
+            if not rec.progress("znx_normalize k=%d shape out=%d cin=%d cout=%d" % (k, has_out, has_cin, has_cout)):
+                continue
             L.call("znx_normalize", m, k, ob if has_out else None, co if has_cout else None, xb,
                    cb if has_cin else None)
             rec.case(("prim", k, has_out, has_cin, has_cout))
